@@ -511,6 +511,12 @@ W_NilReader == \E t \in Tasks : At(t, "A_nilx")
 W_InvalidateCasRaced == \E t \in Tasks : At(t, "IVa_cas") /\ st[Top(t).it] # Top(t).s
 W_LookupBeforeOpen == \E t \in Tasks : At(t, "LK_cur") /\ cur = 0
 W_CloseWhileLocked == \E t \in Tasks : At(t, "IV_next2") /\ \E c \in Counters : Locked(st[c])
+(* a lookup loaded current, then waited for file.mu while the mapping was replaced *)
+W_LookupStaleCurrent == \E t \in Tasks : At(t, "NC_lock") /\ Top(t).m # cur /\ mu = "none"
+(* ... and the mapping it loaded has meanwhile been closed *)
+W_LookupStaleClosed == \E t \in Tasks : At(t, "NC_lock") /\ Top(t).m # 0 /\ Top(t).m \notin open /\ mu = "none"
+(* two different counters in the middle of their list insertion *)
+W_ListRace == \E t, u \in Tasks : t # u /\ At(t, "RG_hcas") /\ At(u, "RG_hcas") /\ Top(t).c # Top(u).c
 NotW1 == ~W_HolderOnClosedMapping
 NotW2 == ~W_HalfRegistered
 NotW3 == ~W_LockWithReaders
